@@ -8,6 +8,7 @@ import (
 	"io"
 	"strings"
 
+	"verifharness/cmd/c18/probe"
 	"verifharness/cmd/c18/srcfacts"
 )
 
@@ -47,7 +48,7 @@ func init() {
 			if i > 0 {
 				fmt.Fprintf(w, ";")
 			}
-			wrapper := s.File == "prepare_stmt.go"
+			wrapper := s.Raw == srcfacts.Param // the site passes on a context parameter it received
 			fmt.Fprintf(w, "\n  (%s, %s, %s, %s)", c18Str(fmt.Sprintf("%s:%s:%d", s.File, s.Func, s.Line)), c18Str(s.Method), c18Bool(wrapper), c18Form(s.Form))
 		}
 		fmt.Fprintf(w, "].\n")
@@ -65,8 +66,8 @@ func init() {
 			fmt.Fprintf(w, "\n  (%s, %s, mk_slit %s %s %s %s)", c18Str(l.Key()), c18Str(l.Func), c18Form(l.CtxForm), c18Bool(l.NewDB == "true" || l.NewDB == "expr"), c18Bool(l.Init), c18Bool(l.Own()))
 		}
 		fmt.Fprintf(w, "].\n")
-		// Statement literals: (key, func, sets ConnPool, context form)
-		fmt.Fprintf(w, "Definition c18_statements : list (string * string * bool * cform) := [")
+		// Statement literals: (key, only reachable from Open?, sets ConnPool, context form)
+		fmt.Fprintf(w, "Definition c18_statements : list (string * bool * bool * cform) := [")
 		n = 0
 		for _, l := range fa.Lits {
 			if l.Kind != "Statement" {
@@ -76,18 +77,16 @@ func init() {
 				fmt.Fprintf(w, ";")
 			}
 			n++
-			hasPool := false
-			for _, f := range l.Fields {
-				if f == "ConnPool" {
-					hasPool = true
-				}
-			}
-			fmt.Fprintf(w, "\n  (%s, %s, %s, %s)", c18Str(l.Key()), c18Str(l.Func), c18Bool(hasPool), c18Form(l.CtxForm))
+			fmt.Fprintf(w, "\n  (%s, %s, %s, %s)", c18Str(l.Key()), c18Bool(len(l.Roots) == 1 && l.Roots[0] == "Open"), c18Bool(l.HasField("ConnPool")), c18Form(l.CtxForm))
 		}
 		fmt.Fprintf(w, "].\n")
-		fmt.Fprintf(w, "Definition c18_copies : copies := mk_copies %s %s %s.\n", c18Bool(fa.GetInstanceCopies), c18Bool(fa.CloneCopies), c18Bool(fa.SessionAssignsCfg))
+		cp, err := probe.Measure()
+		if err != nil {
+			return nil, err
+		}
+		fmt.Fprintf(w, "Definition c18_copies : copies := mk_copies %s %s %s.\n", c18Bool(cp.GetInstance), c18Bool(cp.Clone), c18Bool(cp.Session))
 		fmt.Fprintf(w, "Definition c18_other_ctx_writes : list string := [")
-		for i, s := range fa.SessionOtherCtxWrite {
+		for i, s := range fa.OtherCtxWrites {
 			if i > 0 {
 				fmt.Fprintf(w, "; ")
 			}
@@ -111,6 +110,6 @@ func init() {
 			fmt.Fprintf(w, "%s", c18Str(s))
 		}
 		fmt.Fprintf(w, "].\n")
-		return fa, nil
+		return map[string]interface{}{"source": fa, "copies_measured_on_running_gorm": cp}, nil
 	}
 }
